@@ -94,7 +94,8 @@ theorem matches_bitCount {row : MaskRow} {pf : MaskPF} (h : row.matches pf = tru
   simp only [Bool.and_eq_true, beq_iff_eq] at h
   exact h.1.1.1.1.2
 
-/-- every mask row carries the bit count of its format's layout -/
+/-- table obligation of `C19.pixelinfo_agrees` (mask headers): every row of `KNOWN_PIXEL_FORMATS` carries the bit count
+of its format's layout — complete evaluation over the translated rows (seeded C09h fails the build HERE) -/
 theorem maskRows_bitCount : ∀ row, row ∈ maskRows →
     formatPixelInfoP row.fmt = some (.fixed ((row.pat.bitCount % 256) / 8)) := by
   have h : maskRows.all (fun row =>
